@@ -1441,3 +1441,305 @@ Lemma string_from_number_accepted :
   coerce_value [(str_of_string "String", TDScalar KString)] (JInt 123)
                (INamed false (str_of_string "String")) = Ok (PStr (str_of_string "123")).
 Proof. vm_compute. reflexivity. Qed.
+
+(* ------------------------------------------------------------------ *)
+(* the literal route, argument assembly and variable coercion raise      *)
+(* nothing but their documented error                                    *)
+Definition decided_k {A} (k : nat) (o : outcome A) : Prop :=
+  match o with Ok _ => True | Rejected k' _ => k' = k | _ => False end.
+
+Lemma decided_is_k {A} (o : outcome A) : decided o <-> decided_k RK_coercion o.
+Proof. destruct o; simpl; tauto. Qed.
+
+Lemma parse_literal_decided k l : decided_k RK_invalid (parse_literal k l).
+Proof.
+  destruct k, l; simpl; try exact I; try reflexivity;
+    unfold int_rangeI;
+    repeat match goal with
+           | |- decided_k _ (match ?x with _ => _ end) => destruct x; simpl
+           | |- decided_k _ (if ?x then _ else _) => destruct x; simpl
+           end; try exact I; reflexivity.
+Qed.
+
+Lemma seq_items_decided rs :
+  Forall (decided_k RK_invalid) rs -> decided_k RK_invalid (seq_items rs).
+Proof.
+  induction 1 as [|r rs Hr _ IH]; simpl; [exact I|].
+  destruct r as [v| |k p|]; simpl in Hr; try contradiction; [|exact Hr].
+  destruct (seq_items rs); simpl in *; auto.
+Qed.
+
+Lemma vfa_fields_decided look fs :
+  (forall f, In f fs -> match look (f_name f) with
+                        | Some c => decided_k RK_invalid (c (f_ty f))
+                        | None => True
+                        end) ->
+  decided_k RK_invalid (vfa_fields fs look).
+Proof.
+  induction fs as [|f fs IH]; intros H; simpl; [exact I|].
+  assert (IH' : decided_k RK_invalid (vfa_fields fs look))
+    by (apply IH; intros g Hg; apply H; right; assumption).
+  specialize (H f (or_introl eq_refl)).
+  destruct (look (f_name f)) as [c|].
+  - destruct (c (f_ty f)) as [v| |k p|]; simpl in H; try contradiction; simpl; [|exact H].
+    destruct (vfa_fields fs look); simpl in *; auto.
+  - unfold absent_field. destruct (f_default f).
+    + destruct (vfa_fields fs look); simpl in *; auto.
+    + destruct (ity_nn (f_ty f)); simpl; [reflexivity|].
+      destruct (vfa_fields fs look); simpl in *; auto.
+Qed.
+
+Section TotalLit.
+  Variable s : schema.
+  Hypothesis Hclosed : schema_closed s.
+  Hypothesis Hinputs : schema_inputs s.
+  Variable vs : vars.
+
+  Definition ltotal_at (l : value) : Prop :=
+    forall t, usable s t -> decided_k RK_invalid (value_from_ast s vs l t).
+
+  Lemma vfa_named_total l nn n :
+    plain_value l = true -> usable s (INamed nn n) ->
+    match l with VObject lfs _ => Forall (fun f => ltotal_at (snd (fst f))) lfs | _ => True end ->
+    decided_k RK_invalid (vfa_named s vs n l).
+  Proof.
+    intros Hp (Hb & Hi) IH. unfold bound in Hb; unfold input_ty in Hi; simpl in Hb, Hi.
+    unfold vfa_named.
+    destruct (alookup n s) as [[k|vals|fs|]|] eqn:Hn; try congruence.
+    - apply parse_literal_decided.
+    - destruct l; try reflexivity. destruct (alookup s0 vals); [exact I|reflexivity].
+    - destruct l; try reflexivity. unfold vfa_input.
+      assert (Hd : decided_k RK_invalid
+                     (vfa_fields fs (fun k => alookup_last k (vfa_closures s vs fs0)))).
+      { apply vfa_fields_decided. intros f Hf.
+        destruct (alookup_last (f_name f) (vfa_closures s vs fs0)) as [c|] eqn:Ec; [|exact I].
+        apply vfa_closures_lookup in Ec as (nm & v & lc & Hin & _ & ->).
+        rewrite Forall_forall in IH. apply (IH _ Hin). split; [eapply Hclosed|eapply Hinputs]; eauto. }
+      destruct (vfa_fields fs _); simpl in *; auto.
+  Qed.
+
+  Lemma vfa_plain_total l :
+    plain_value l = true -> is_vlist l = false ->
+    match l with VObject lfs _ => Forall (fun f => ltotal_at (snd (fst f))) lfs | _ => True end ->
+    ltotal_at l.
+  Proof.
+    intros Hp Hl IH t. induction t as [nn n|nn t IHt]; intros Hu.
+    - rewrite vfa_named_eq by assumption. apply (vfa_named_total l nn n); auto.
+    - rewrite vfa_single by assumption. specialize (IHt Hu).
+      destruct (value_from_ast s vs l t); simpl in *; auto.
+  Qed.
+
+  Theorem vfa_total : forall l, ltotal_at l.
+  Proof.
+    induction l using value_ind'; try (apply vfa_plain_total; [reflexivity|reflexivity|exact I]).
+    - intros t _. rewrite vfa_var. unfold extract_variable.
+      destruct (alookup (n_val n) vs); [|reflexivity].
+      destruct (ity_nn t && is_none p); [reflexivity|exact I].
+    - intros t _. rewrite vfa_null. destruct (ity_nn t); [reflexivity|exact I].
+    - intros t. induction t as [nn n|nn t IHt]; intros Hu.
+      + rewrite vfa_named_eq by reflexivity. apply (vfa_named_total (VList vs0 l) nn n); auto.
+      + rewrite vfa_list.
+        assert (Hd : decided_k RK_invalid
+                       (seq_items (map (fun x => value_from_ast s vs x t) vs0))).
+        { apply seq_items_decided. rewrite Forall_forall in *.
+          intros r Hr. apply in_map_iff in Hr as (x & <- & Hx). apply (H x Hx). exact Hu. }
+        destruct (seq_items _); simpl in *; auto.
+    - apply vfa_plain_total; [reflexivity|reflexivity|assumption].
+  Qed.
+
+  (* coerce_argument_values: a dict or CoercionError *)
+  Lemma arg_binding_total call d :
+    usable s (f_ty d) -> decided_k RK_coercion (arg_binding s vs call d).
+  Proof.
+    intros Hu. unfold arg_binding.
+    assert (Habs : decided_k RK_coercion (absent_field d rejC)).
+    { unfold absent_field. destruct (f_default d); [exact I|].
+      destruct (ity_nn (f_ty d)); [reflexivity|exact I]. }
+    destruct (arg_lookup call (f_name d)) as [l|]; [|exact Habs].
+    assert (Hlit : decided_k RK_coercion
+                     match value_from_ast s vs l (f_ty d) with
+                     | Ok v0 => Ok (Some v0)
+                     | OutOfFuel => OutOfFuel
+                     | Rejected _ _ => rejC
+                     | Crash c => Crash c
+                     end).
+    { pose proof (vfa_total l (f_ty d) Hu) as Hv.
+      destruct (value_from_ast s vs l (f_ty d)); simpl in *; auto. }
+    destruct l; auto.
+    destruct (alookup (n_val n) vs); [|exact Habs].
+    destruct (ity_nn (f_ty d) && is_none p); [reflexivity|exact I].
+  Qed.
+
+  Lemma arg_bindings_total call defs :
+    (forall d, In d defs -> usable s (f_ty d)) ->
+    decided_k RK_coercion (arg_bindings s vs call defs).
+  Proof.
+    induction defs as [|d defs IH]; intros H; simpl; [exact I|].
+    pose proof (arg_binding_total call d (H d (or_introl eq_refl))) as Hd.
+    assert (IH' : decided_k RK_coercion (arg_bindings s vs call defs))
+      by (apply IH; intros g Hg; apply H; right; assumption).
+    destruct (arg_binding s vs call d); simpl in *; auto.
+    destruct (arg_bindings s vs call defs); simpl in *; auto.
+  Qed.
+
+  Theorem cav_total call defs :
+    (forall d, In d defs -> usable s (f_ty d)) ->
+    decided_k RK_coercion (coerce_argument_values s defs call vs).
+  Proof.
+    intros H. unfold coerce_argument_values.
+    pose proof (arg_bindings_total call defs H) as Hd.
+    destruct (arg_bindings s vs call defs); simpl in *; auto.
+  Qed.
+End TotalLit.
+
+(* coerce_variable_values: a dict or VariablesCoercionError, whatever the
+   variable definitions and the raw values *)
+Lemma var_binding_total s raw vd :
+  schema_closed s -> schema_inputs s -> decided_k RK_variables (var_binding s raw vd).
+Proof.
+  intros Hc Hi. unfold var_binding.
+  destruct (alookup (ity_name (ity_of_ty (vd_type vd))) s) as [d|] eqn:Hd; [|reflexivity].
+  destruct (is_input_def d) eqn:Hin; simpl; [|reflexivity].
+  assert (Hu : usable s (ity_of_ty (vd_type vd))).
+  { split; [unfold bound; congruence|]. unfold input_ty. rewrite Hd.
+    intros E; inversion E; subst; discriminate. }
+  destruct (alookup (n_val (vd_var vd)) raw) as [j|].
+  - pose proof (cv_total s Hc j _ (proj1 Hu)) as Ht.
+    destruct (coerce_value s j _); simpl in *; auto; reflexivity.
+  - destruct (vd_default vd) as [dl|].
+    + pose proof (vfa_total s Hc Hi [] dl _ Hu) as Ht.
+      destruct (value_from_ast s [] dl _); simpl in *; auto; reflexivity.
+    + destruct (ity_nn _); [reflexivity|exact I].
+Qed.
+
+Theorem cvv_total s vds raw :
+  schema_closed s -> schema_inputs s -> decided_k RK_variables (coerce_variable_values s vds raw).
+Proof.
+  intros Hc Hi. unfold coerce_variable_values.
+  assert (Hd : decided_k RK_variables (var_bindings s raw vds)).
+  { induction vds as [|vd vds IH]; simpl; [exact I|].
+    pose proof (var_binding_total s raw vd Hc Hi) as Hb.
+    destruct (var_binding s raw vd); simpl in *; try contradiction.
+    - destruct (var_bindings s raw vds); simpl in *; auto.
+    - destruct (var_bindings s raw vds); simpl in *; auto; reflexivity. }
+  destruct (var_bindings s raw vds); simpl in *; auto.
+Qed.
+
+Theorem exec_total s defs vds call raw :
+  schema_closed s -> schema_inputs s -> (forall d, In d defs -> usable s (f_ty d)) ->
+  match exec_kwargs s defs vds call raw with
+  | Ok _ => True
+  | Rejected k _ => k = RK_variables \/ k = RK_coercion
+  | _ => False
+  end.
+Proof.
+  intros Hc Hi Hd. unfold exec_kwargs.
+  pose proof (cvv_total s vds raw Hc Hi) as Hv.
+  destruct (coerce_variable_values s vds raw) as [vs| | |]; simpl in *; auto.
+  pose proof (cav_total s Hc Hi vs call defs Hd) as Ha.
+  destruct (coerce_argument_values s defs call vs); simpl in *; auto.
+Qed.
+
+(* ------------------------------------------------------------------ *)
+(* rejection, exactly                                                   *)
+Theorem wrong_rejected_exact s t j :
+  schema_closed s -> bound s t -> wrong s t j ->
+  exists p, coerce_value s j t = Rejected RK_coercion p.
+Proof.
+  intros Hc Hb Hw. pose proof (wrong_rejected s t j Hw) as Hn.
+  pose proof (cv_total s Hc j t Hb) as Hd.
+  destruct (coerce_value s j t) as [v| |k p|]; simpl in Hd; try contradiction.
+  - exfalso; eapply Hn; eauto.
+  - subst k. eauto.
+Qed.
+
+Theorem wrong_lit_rejected_exact s vs t l :
+  schema_closed s -> schema_inputs s -> usable s t -> wrong_lit s t l ->
+  exists p, value_from_ast s vs l t = Rejected RK_invalid p.
+Proof.
+  intros Hc Hi Hu Hw. pose proof (wrong_lit_rejected s vs t l Hw) as Hn.
+  pose proof (vfa_total s Hc Hi vs l t Hu) as Hd.
+  destruct (value_from_ast s vs l t) as [v| |k p|]; simpl in Hd; try contradiction.
+  - exfalso; eapply Hn; eauto.
+  - subst k. eauto.
+Qed.
+
+(* any acceptance of a foreign kind at a scalar position is one of the two
+   pinned cases: a third leniency would contradict this *)
+Theorem no_other_leniency s nn n k j v :
+  alookup n s = Some (TDScalar k) -> scalar_kind_foreign k j ->
+  coerce_value s j (INamed nn n) = Ok v -> lenient_scalar_case k j = true.
+Proof.
+  intros Hn Hf Hv. destruct (lenient_scalar_case k j) eqn:E; [reflexivity|].
+  exfalso. eapply (wrong_rejected s (INamed nn n) j); [|exact Hv].
+  eapply W_kind; eauto.
+Qed.
+
+Lemma lenient_witnesses :
+  (lenient_scalar_case KInt (JStr (str_of_string "12")) = true
+   /\ scalar_kind_foreign KInt (JStr (str_of_string "12"))
+   /\ coerce_value [(str_of_string "Int", TDScalar KInt)] (JStr (str_of_string "12"))
+                   (INamed false (str_of_string "Int")) = Ok (PInt 12))
+  /\ (lenient_scalar_case KString (JInt 123) = true
+      /\ scalar_kind_foreign KString (JInt 123)
+      /\ coerce_value [(str_of_string "String", TDScalar KString)] (JInt 123)
+                      (INamed false (str_of_string "String")) = Ok (PStr (str_of_string "123"))).
+Proof. vm_compute. repeat split; reflexivity. Qed.
+
+(* ------------------------------------------------------------------ *)
+(* directive arguments: the same coerce_argument_values                 *)
+Theorem directive_args_sound s defs dname ds vs kw :
+  schema_wf s -> args_wf s defs ->
+  (forall d, find_directive dname ds = Some d -> call_vars_fit s vs defs (d_args d)) ->
+  directive_arguments s defs dname ds vs = Ok (Some kw) ->
+  NoDup (map fst kw)
+  /\ (forall k v, In (k, v) kw -> exists a, In a defs /\ f_py a = k /\ conforms s (f_ty a) v)
+  /\ (forall a, In a defs -> f_default a <> None \/ ity_nn (f_ty a) = true -> In (f_py a) (map fst kw)).
+Proof.
+  intros Hwf Ha Hfit H. unfold directive_arguments in H.
+  destruct (find_directive dname ds) as [d|] eqn:Ed; [|discriminate].
+  destruct (coerce_argument_values s defs (d_args d) vs) as [kw'| | |] eqn:Ec; try discriminate.
+  inversion H; subst kw'. destruct (cav_sound _ _ _ _ _ Hwf Ha (Hfit d eq_refl) Ec) as (H1 & H2).
+  repeat split; auto. intros a Hin Hreq. eapply cav_required_present; eauto.
+Qed.
+
+Theorem directive_args_total s defs dname ds vs :
+  schema_closed s -> schema_inputs s -> (forall d, In d defs -> usable s (f_ty d)) ->
+  decided_k RK_coercion (directive_arguments s defs dname ds vs).
+Proof.
+  intros Hc Hi Hd. unfold directive_arguments.
+  destruct (find_directive dname ds) as [d|]; [|exact I].
+  pose proof (cav_total s Hc Hi vs (d_args d) defs Hd) as Ht.
+  destruct (coerce_argument_values s defs (d_args d) vs); simpl in *; auto.
+Qed.
+
+Lemma conforms_scalar_inv s nn n k v :
+  alookup n s = Some (TDScalar k) -> conforms s (INamed nn n) v -> v = PNone \/ scalar_ok k v.
+Proof.
+  intros Hn Hc. inversion Hc; subst; auto; try congruence.
+  right. assert (k0 = k) by congruence. subst. assumption.
+Qed.
+
+(* @skip / @include: whenever the arguments are accepted, `if` is there and is
+   a boolean -- so _skip_selection tests a genuine boolean *)
+Theorem skip_if_is_boolean s dname ds vs kw :
+  schema_wf s -> alookup (str_of_string "Boolean") s = Some (TDScalar KBoolean) ->
+  (forall d, find_directive dname ds = Some d -> call_vars_fit s vs [if_arg] (d_args d)) ->
+  directive_arguments s [if_arg] dname ds vs = Ok (Some kw) ->
+  exists b, alookup str_if kw = Some (PBool b).
+Proof.
+  intros Hwf Hb Hfit H.
+  assert (Ha : args_wf s [if_arg]).
+  { split.
+    - intros f d [<-|[]] Hd. discriminate.
+    - intros d [<-|[]]. unfold input_ty.
+      change (ity_name (f_ty if_arg)) with (str_of_string "Boolean"). rewrite Hb. discriminate. }
+  destruct (directive_args_sound _ _ _ _ _ _ Hwf Ha Hfit H) as (Hnd & Hc & Hp).
+  assert (Hin : In (f_py if_arg) (map fst kw)) by (apply Hp; [left; reflexivity|right; reflexivity]).
+  apply in_map_iff in Hin as ((k, v) & Hk & Hin). simpl in Hk. subst k.
+  destruct (Hc _ _ Hin) as (a & [<-|[]] & _ & Hv).
+  change (f_ty if_arg) with (INamed true (str_of_string "Boolean")) in Hv.
+  destruct (conforms_scalar_inv _ _ _ _ _ Hb Hv) as [->|(b & ->)].
+  - exfalso. eapply nonnull_never_null; eauto.
+  - exists b. apply alookup_iff_In; assumption.
+Qed.
